@@ -512,11 +512,6 @@ func ruleP17ErrAbort(p *Prog, r *Report) {
 			for _, t := range tests {
 				b := t.If.Block()
 				nonNil := b.Succs[1-t.NilSucc]
-				if len(nonNil.Preds) != 1 {
-					// the non-nil edge joins other paths (e.g. `if err == nil { use }` with nothing else)
-					r.bad(rule, key, p.instrPos(c), "when %s fails, the function carries on (the error branch at %s joins the normal path) instead of failing", name, p.instrPos(t.If))
-					return
-				}
 				msg := rejectComplete(nonNil, func(ret *ssa.Return) string {
 					for _, res := range ret.Results {
 						if _, isIface := res.Type().Underlying().(*types.Interface); isIface && p.nilnessAt(ret.Block(), res, 0) == nnNonNil {
